@@ -522,13 +522,18 @@ func vfOracleC05(run *vfProdRun) *vfcore.Failure {
 		return nil
 	}
 	v := run.view()
+	// Every clause is judged on its own and all failures are handed on (Failure.Also): a symptom that a known finding
+	// explains must not hide one that it does not.
+	var fails []*vfcore.Failure
 	// (1) nothing twice
+dup:
 	for key, log := range v.logs {
 		at := map[int]int64{}
 		for i := range log {
 			id := vfIdentOf(&log[i])
 			if prev, dup := at[id]; dup {
-				return run.fail("duplicate-in-log", "partition %s holds message %d twice (offsets %d and %d)", key, id, prev, log[i].Offset)
+				fails = append(fails, run.fail("duplicate-in-log", "partition %s holds message %d twice (offsets %d and %d)", key, id, prev, log[i].Offset))
+				break dup
 			}
 			at[id] = log[i].Offset
 		}
@@ -537,10 +542,33 @@ func vfOracleC05(run *vfProdRun) *vfcore.Failure {
 	logged := vfLoggedIds(run)
 	for _, o := range run.outcomes {
 		if o.Ok && o.Idx >= 0 && !logged[o.Idx] {
-			return run.fail("success-not-in-log", "message %d reported successful but is in no log", o.Idx)
+			fails = append(fails, run.fail("success-not-in-log", "message %d reported successful but is in no log", o.Idx))
+			break
 		}
 	}
-	// (3) sequence continuity per partition and epoch, as received; resends identical
+	// (3) a batch that was on the wire comes again with the same records and the same first sequence: it must carry the same
+	// epoch (batches are stamped when they are created; only messages re-queued one by one after a connection-level failure
+	// are batched anew)
+	type wkey struct {
+		key   string
+		pid   int64
+		first int64
+		ids   string
+	}
+	epochOf := map[wkey]int64{}
+	for _, e := range v.produces {
+		if len(e.Vals) < 8 || e.Vals[4] < 0 {
+			continue
+		}
+		k := wkey{e.Key, e.Vals[4], e.Vals[6], fmt.Sprint(e.Ids)}
+		if ep, seen := epochOf[k]; seen && ep != e.Vals[5] {
+			fails = append(fails, run.failAt(e.Seq, "resend-under-other-epoch", "%s pid=%d: the batch with first sequence %d and messages %s was sent under epoch %d and again under epoch %d",
+				e.Key, k.pid, k.first, k.ids, ep, e.Vals[5]))
+			break
+		}
+		epochOf[k] = e.Vals[5]
+	}
+	// (4) sequence continuity per partition and epoch, as received; resends identical
 	type bkey struct {
 		key   string
 		pid   int64
@@ -553,9 +581,11 @@ func vfOracleC05(run *vfProdRun) *vfcore.Failure {
 	}
 	last := map[bkey]int64{}    // next expected sequence
 	seenB := map[bkey][]batch{} // batches seen
+seq:
 	for _, e := range v.produces {
 		if len(e.Vals) < 8 || e.Vals[4] < 0 {
-			return run.fail("no-producer-id", "idempotent producer sent a batch without producer id on %s", e.Key)
+			fails = append(fails, run.fail("no-producer-id", "idempotent producer sent a batch without producer id on %s", e.Key))
+			break
 		}
 		k := bkey{e.Key, e.Vals[4], e.Vals[5]}
 		first := e.Vals[6]
@@ -565,7 +595,8 @@ func vfOracleC05(run *vfProdRun) *vfcore.Failure {
 			if b.first == first {
 				resend = true
 				if b.ids != ids {
-					return run.failAt(e.Seq+1, "resend-differs", "%s pid=%d epoch=%d: batch with first sequence %d was sent with messages %s and later with %s", e.Key, k.pid, k.epoch, first, b.ids, ids)
+					fails = append(fails, run.failAt(e.Seq+1, "resend-differs", "%s pid=%d epoch=%d: batch with first sequence %d was sent with messages %s and later with %s", e.Key, k.pid, k.epoch, first, b.ids, ids))
+					break seq
 				}
 			}
 		}
@@ -574,14 +605,19 @@ func vfOracleC05(run *vfProdRun) *vfcore.Failure {
 		}
 		want := last[k]
 		if first != want {
-			return run.failAt(e.Seq, "sequence-gap", "%s pid=%d epoch=%d: new batch starts at sequence %d, expected %d (messages %s)", e.Key, k.pid, k.epoch, first, want, ids)
+			fails = append(fails, run.failAt(e.Seq, "sequence-gap", "%s pid=%d epoch=%d: new batch starts at sequence %d, expected %d (messages %s)", e.Key, k.pid, k.epoch, first, want, ids))
+			break
 		}
 		last[k] = first + int64(e.N)
 		seenB[k] = append(seenB[k], batch{first, ids, e.N})
 	}
 	// Not judged: a broker answering OUT_OF_ORDER_SEQUENCE_NUMBER / INVALID_PRODUCER_EPOCH. After a batch fails for good, the
 	// batches already sequenced behind it are legitimately refused (they end as errors, nothing is written twice).
-	return nil
+	if len(fails) == 0 {
+		return nil
+	}
+	fails[0].Also = fails[1:]
+	return fails[0]
 }
 
 // ------------------------------------------------------------------------------------ C16
@@ -715,10 +751,20 @@ func vfProdSpec(id, emph string, oracles ...func(*vfProdRun) *vfcore.Failure) vf
 				_ = os.WriteFile(dump, b, 0o644)
 			}
 			failed, firstFail := vfClassifyProd(run, r)
+			// every oracle is consulted; the pipeline reports the first failure no known finding explains (Failure.Also)
+			var first *vfcore.Failure
 			for _, o := range oracles {
 				if f := o(run); f != nil {
-					return f
+					if first == nil {
+						first = f
+					} else {
+						first.Also = append(append(first.Also, f), f.Also...)
+						f.Also = nil
+					}
 				}
+			}
+			if first != nil {
+				return first
 			}
 			vfNonTrivialProd(id, run, r, failed, firstFail)
 			return nil
